@@ -11,10 +11,10 @@ CONSTANTS
   CrashPoints = FALSE
   Readers = {r1, r2}
   MaxOps = 2
-  MaxPuts = 2
+  MaxPuts = 3
   CFirst = 1
   CF = 2
-  Wide = FALSE
+  Wide = TRUE
   AtomicPT = TRUE
   AtomicPut = TRUE
   NotifyAfterStore = TRUE
